@@ -109,7 +109,15 @@ def run_history(cfg, tape):
         me = CB.MetricEvaluator(cfg["p1"], {"a": m1, "b": lambda s, **kw_: 2.0}, log=os.path.join(d, "m.csv"), off=3)
         oe = CB.ObservableEvaluator(cfg["p2"], [O.SigmaZ(), O.NeighbourInteraction(c=1)], log=os.path.join(d, "o.csv"), num_samples=4, num_chains=2, burn_in=1, steps=1)
         msgs = []
-        lg = CB.Logger(cfg["pl"], logger_fn=msgs.append, msg_gen=lambda s, e, **kw_: f"{e}:{sorted(kw_.items())}", tagv=7)
+        verbose = bool((cfg["p1"] + cfg["e0"]) % 2)
+        if verbose:
+            me.verbose = True
+            oe.verbose = True
+        default_msg = bool(cfg["p2"] % 2)
+        if default_msg:
+            lg = CB.Logger(cfg["pl"], logger_fn=msgs.append, tagv=7)  # documented default message generator
+        else:
+            lg = CB.Logger(cfg["pl"], logger_fn=msgs.append, msg_gen=lambda s, e, **kw_: f"{e}:{sorted(kw_.items())}", tagv=7)
         md = {"none": None, "dict": {"note": "x"}, "callable": (lambda s, e: {"epoch": e})}[cfg["md"]]
         ms = CB.ModelSaver(cfg["ps"], os.path.join(d, "sv"), "ep{}.pt", save_initial=cfg["save_init"], metadata=md, metadata_only=cfg["mdonly"])
         rec = []  # (fit index, epoch, metric value, params clone, captured-count)
@@ -218,7 +226,10 @@ def run_history(cfg, tape):
                 elif len(so) and not feq(float(rows_csv[-1]["SigmaZ_mean"]), oe.get_value("SigmaZ")["mean"]):
                     out.append(("periodic:ObservableEvaluator:csv-log-differs", dict(last_row=rows_csv[-1])))
         # ---- logger
-        want_msgs = [f"{r['epoch']}:{[('tagv', 7)]}" for r in sched(cfg["pl"], rec)]
+        if default_msg:
+            want_msgs = ["Epoch " + str(r["epoch"]) + ": " + str({"tagv": 7}) for r in sched(cfg["pl"], rec)]
+        else:
+            want_msgs = [f"{r['epoch']}:{[('tagv', 7)]}" for r in sched(cfg["pl"], rec)]
         if msgs != want_msgs:
             out.append(("periodic:Logger:messages-differ-from-schedule", dict(got=msgs, want=want_msgs)))
         # ---- model saver
